@@ -95,6 +95,10 @@ def wrapdiff(est, s, shape):
     return (d + n / 2) % n - n / 2
 
 
+class InputsModified(Exception):
+    pass
+
+
 def estimate(impl, im_ref, im, up, opts=None):
     """Run the real estimator. Returns (shifts ndarray, aligned or None)."""
     opts = opts or {}
@@ -106,6 +110,7 @@ def estimate(impl, im_ref, im, up, opts=None):
         a, b = im_ref, im
         if opts.get("fft_input"):
             a, b = np.fft.fft2(im_ref), np.fft.fft2(im)
+        a0, b0 = a.copy(), b.copy()
         kw = dict(upsample_factor=up, fft_input=bool(opts.get("fft_input")))
         if opts.get("max_shift") is not None:
             kw["max_shift"] = opts["max_shift"]
@@ -113,9 +118,19 @@ def estimate(impl, im_ref, im, up, opts=None):
             kw["return_shifted_image"] = True
             kw["fft_output"] = bool(opts.get("fft_output"))
             sh, img = U.cross_correlation_shift(a, b, **kw)
-            return np.asarray(sh, float), np.asarray(img)
-        return np.asarray(U.cross_correlation_shift(a, b, **kw), float), None
-    out = U.cross_correlation_shift_torch(torch.tensor(im_ref, dtype=torch.float64), torch.tensor(im, dtype=torch.float64), upsample_factor=up)
+            img = np.asarray(img)
+            # the estimator is a function of its inputs: they must come back untouched and the result must not alias them
+            if not (np.array_equal(a, a0) and np.array_equal(b, b0)) or np.shares_memory(img, a) or np.shares_memory(img, b):
+                raise InputsModified(f"cross_correlation_shift(fft_input={kw['fft_input']}, return_shifted_image=True, fft_output={kw['fft_output']}) modified or aliased its input arrays")
+            return np.asarray(sh, float), img
+        out = np.asarray(U.cross_correlation_shift(a, b, **kw), float)
+        if not (np.array_equal(a, a0) and np.array_equal(b, b0)):
+            raise InputsModified(f"cross_correlation_shift(fft_input={kw['fft_input']}) modified its input arrays")
+        return out, None
+    ta, tb = torch.tensor(im_ref, dtype=torch.float64), torch.tensor(im, dtype=torch.float64)
+    out = U.cross_correlation_shift_torch(ta, tb, upsample_factor=up)
+    if not (np.array_equal(ta.numpy(), im_ref) and np.array_equal(tb.numpy(), im)):
+        raise InputsModified("cross_correlation_shift_torch modified its input tensors")
     return out.detach().cpu().numpy().astype(float), None
 
 
@@ -139,7 +154,12 @@ def check_point(t, impl, shape, which, s, up, seed, opts=None, swap=True):
     ref = fshift(im, s)
     case = {"impl": impl, "shape": list(shape), "image": which, "shift": list(s), "upsample": up, "opts": opts or {}}
     nontrivial = bool(np.any(np.abs(wrapdiff(s, (0, 0), shape)) > 0))
-    est, aligned = estimate(impl, ref, im, up, opts)
+    try:
+        est, aligned = estimate(impl, ref, im, up, opts)
+    except InputsModified as e:
+        t.case(key=case, nontrivial=nontrivial)
+        t.fail({"relation": "inputs_not_modified", "impl": impl}, case, f"{impl} shape={shape} shift={s} upsample={up}: {e}")
+        return
     err = wrapdiff(est, s, shape)
     e = float(np.max(np.abs(err)))
     b = bound(impl, up, integer)
@@ -166,7 +186,11 @@ def check_point(t, impl, shape, which, s, up, seed, opts=None, swap=True):
             if d2 > 1e-6:
                 t.fail({"relation": "aligned_image_equals_first_image", "impl": impl}, case, f"integer shift {s}: aligned image differs from the reference image by {d2:.3g}")
     if swap:
-        est2, _ = estimate(impl, im, ref, up, opts if not (opts or {}).get("ret") else {k: v for k, v in opts.items() if k not in ("ret", "fft_output")})
+        try:
+            est2, _ = estimate(impl, im, ref, up, opts if not (opts or {}).get("ret") else {k: v for k, v in opts.items() if k not in ("ret", "fft_output")})
+        except InputsModified as e:
+            t.fail({"relation": "inputs_not_modified", "impl": impl}, case, f"{impl} shape={shape} shift={s} upsample={up} (swapped call): {e}")
+            return
         neg = wrapdiff(est2, (-est[0], -est[1]), shape)
         e2 = float(np.max(np.abs(neg)))
         b2 = b if integer else 2 * b
